@@ -1477,6 +1477,8 @@ class Interp(object):
 
     def exec_for(self, s, env, qual, func):
         it = self.eval(s.iter, env, func)
+        if hasattr(it, "as_symseq") and not isinstance(it, Obj):
+            it = it.as_symseq()              # contract-side sequence of symbolic length
         spec = self.loop_spec_for(func, s)
         if spec is not None:
             yield from self._for_with_invariant(s, it, spec, env, qual, func)
